@@ -11,6 +11,9 @@
 //     Stream (all ES + multiplexing choices) and Stream.Bytes(), which assembles PES packets itself
 //     (stream_id 0xBD private_stream_1, PTS) and uses only astits' *muxer* for the 188-byte packet
 //     and PAT/PMT layer.
+//     Value-level freedoms of the model: Packet.FlipBits (transmission errors in Hamming 8/4 bytes), kinds X/27
+//     and X/31, Unit.FL (the whole field-parity / line-offset byte), ES.Items / NoItems / Before / After (what
+//     the PMT says about the PID: descriptor item lists, neighbouring descriptors).
 //   - machine.go: the reference page machine written from the property sentence (what a reader must
 //     return for a Stream): Expect(stream, options) -> cues, and the row decoder DecodeRow.
 //   - build.go  : the small helper API for other checks, documented below.
